@@ -35,6 +35,17 @@ func C13(e *Env) {
 	dupGetterRule(e, "R01.7")
 	c13Getter(e)
 	c13Defaults(e)
+	dereferenceRule(e, "R13.7")
+	r.Rule("R13.7", "ptr.Dereference returns the pointed-to value whenever the pointer is set (an explicit must_getter: false is not mistaken for unset)", 1)
+	mergeLiteralRule(e, "mergeService", "Service")
+	mergeLiteralRule(e, "mergeMeta", "Meta")
+	r.Rule("R09.1", "getter, must_getter and default_must_getter survive the multi-file merge field by field (later non-nil wins; one attribute never resets another) (shared with C09)", 14)
+	r.Rule("R09.1c", "behaviour classes of the merge combinators (shared with C09)", 2)
+	vars13 := regexVars(e)
+	c11Languages(e, vars13)
+	c11Lemmas(e, vars13)
+	r.Rule("R11.2", "the getter grammar accepts exactly the documented identifiers (shared with C11): in particular no leading underscore, which keeps user getters apart from the generated container's own _helper methods", 8)
+	r.Rule("R11.3", "identifier lemmas (shared with C11)", 4)
 	c13Families(e, "R13.6")
 	r.Rule("R13.6", "name-family separation: ValidateServiceGetter rejects every getter with the Must prefix and every getter with the InContext suffix (the test's true edge creates the error directly, the error reaches the result, every non-nil non-reserved getter reaches the test); with pairwise different getters this makes G, GInContext, MustG and MustGInContext of different services distinct", 2)
 	r.NotCovered = append(r.NotCovered,
@@ -275,6 +286,13 @@ func C17(e *Env) {
 	c17Flag(e)
 	formatGate(e, "R17.4f")
 	r.Rule("R17.4f", "both modes go through the same formatter and import pass (shared with R01.4)", 3)
+	c16Flags(e)
+	r.Rule("R16.1", "flag binding (shared with C16)", 2)
+	r.Rule("R16.2", "payload = negated flag (shared with C16)", 2)
+	r.Rule("R16.3", "same accept/reject decision in both modes: the ignore switches are applied on every path through buildRunner, --stub or not (shared with C16)", 2)
+	sharedWriteRules(e)
+	r.Rule("R10.2", "the stub on disk is exactly the generated stub: one os.WriteFile (create, truncate, write) (shared with C10): written over a longer real container it must not keep the old tail", 3)
+	r.Rule("R10.1", "the written path is the -o path (shared with C10)", 1)
 	r.NotCovered = append(r.NotCovered,
 		"user data that changes the formatter's verdict in one mode only is covered by R03.1 (sanitisation), not here",
 		"the Makefile's generate-stub recipe and .gitignore entry (build hygiene, not behaviour)")
@@ -369,6 +387,11 @@ func C20(e *Env) {
 	r.Rule("R05.3", "a declared-shared service that (transitively) depends on a contextual one would cache the first context's instance for every later context; the validator that rejects such configurations inspects every dependency and is guarded exactly (shared with C05)", 6)
 	r.Rule("R05.2", "that validator is wired into the output validation and cannot be switched off (shared with C05)", 2)
 	r.Rule("R05.1", "a service without declared scope is registered with SetScopeDefault (so the runtime derives contextual-ness from its dependencies) and declared scopes call their own setter (shared with C05): a wrong setter shares a contextual service between contexts", 5)
+	mergeLiteralRule(e, "mergeService", "Service")
+	c09Fold(e)
+	r.Rule("R09.1", "a declared scope survives the multi-file merge (shared with C09): a lost `contextual` becomes shared at run time and one instance reaches every context", 11)
+	r.Rule("R09.1c", "behaviour classes of the merge combinators (shared with C09)", 2)
+	r.Rule("R09.2", "the fold is Merge(accumulator, file): the later file's scope wins (shared with C09)", 1)
 	r.NotCovered = append(r.NotCovered,
 		"goroutine schedules, the runtime library's locking, at-most-once construction and context isolation are properties of gontainer-helpers executing; the check decides only that the generated code adds no shared mutable state of its own, so that every race would have to be inside the runtime",
 		"scope promotion (default vs shared) is decided under C05")
